@@ -99,7 +99,24 @@ fn check_labels(lbl: &ST, obs_std: &[PathObs], obs_cons: &[PathObs]) -> Vec<Stri
 
 fn run_ctx<Ctx: Cx>(rep: &Report, ctxname: &'static str, n: usize, alpha: Alphabet, tap: bool, sigver: SigVer, form: KeyForm) -> (Census, u64, u64) {
     let te = explore_terms::<Ctx>(n, alpha, tap);
-    let all: Vec<T> = te.all().map(|m| walk(m).relabel_distinct()).collect();
+    let mut all: Vec<T> = te.all().map(|m| walk(m).relabel_distinct()).collect();
+    if alpha == Alphabet::Small {
+        // lock values around every change of the minimal-number length, the BIP-68 value mask and
+        // type flag, and the height/time threshold: bare and below the wrappers that consume a B
+        let mut base: Vec<T> = vec![];
+        for v in [1u32, 16, 17, 127, 128, 255, 256, 32767, 32768, 65535, 65536, 65537, 0x3f_ffff, 0x40_0000, 0x40_0001, 0x40_ffff, 0x41_0000, 0x7fff_ffff] {
+            base.push(T::Older(v));
+        }
+        for v in [1u32, 16, 17, 127, 128, 255, 256, 32767, 32768, 65535, 65536, 8_388_607, 8_388_608, 499_999_999, 500_000_000, 500_000_001, 0x7fff_ffff] {
+            base.push(T::After(v));
+        }
+        for b in base {
+            all.push(T::Verify(Box::new(b.clone())));
+            all.push(T::ZeroNotEqual(Box::new(b.clone())));
+            all.push(T::AndV(Box::new(T::Verify(Box::new(b.clone()))), Box::new(T::True)));
+            all.push(b);
+        }
+    }
     let cen = all
         .par_iter()
         .fold(Census::new, |mut cen, t| {
@@ -127,7 +144,13 @@ fn run_ctx<Ctx: Cx>(rep: &Report, ctxname: &'static str, n: usize, alpha: Alphab
             keys.sort();
             keys.dedup();
             // two transactions: one meeting after(10)/older(5), one meeting neither
-            for (lt, seq) in [(10u32, 5u32), (0, 0xffff_ffff)] {
+            let mut txs = vec![(10u32, 5u32), (0, 0xffff_ffff)];
+            let own = (t.afters().iter().max().copied().unwrap_or(10), t.olders().iter().max().copied().unwrap_or(5));
+            if own != (10, 5) {
+                // a transaction meeting this term's own lock values
+                txs.push(own);
+            }
+            for (lt, seq) in txs {
                 if (lt, seq) == (0, 0xffff_ffff) && t.afters().is_empty() && t.olders().is_empty() {
                     continue;
                 }
